@@ -373,12 +373,14 @@ def find_children_for_parent(var_collector: Collector, parent_node: ParentNode, 
         if isinstance(attributes, dict):
             nodes += process_dict_breadth_first(parent_node, variable_type.__name__, attributes, correct_names)
         return nodes
-    elif isinstance(getattr(value, '__dict__', None), dict):
-        return process_dict_breadth_first(parent_node, variable_type.__name__, value.__dict__, correct_names)
-    else:
-        # values without an attribute dictionary (builtin types, slots) have no children to collect
+    attributes = getattr(value, '__dict__', None)
+    nodes = process_slots_breadth_first(parent_node, variable_type, value)
+    if isinstance(attributes, dict):
+        return nodes + process_dict_breadth_first(parent_node, variable_type.__name__, attributes, correct_names)
+    if not nodes:
+        # values without attributes of their own (builtin types) have no children to collect
         logging.debug("Unknown type processed %s", variable_type)
-        return []
+    return nodes
 
 
 def process_dict_breadth_first(parent_node, type_name, value, func=lambda x, y: y) -> List[Node]:
@@ -401,6 +403,42 @@ def process_dict_breadth_first(parent_node, type_name, value, func=lambda x, y: 
     return [Node(value=NodeValue(func(type_name, safe_str(key)), dict.__getitem__(value, key), safe_str(key)),
                  parent=parent_node)
             for key in list(dict.keys(value)) if dict.__contains__(value, key)]
+
+
+def process_slots_breadth_first(parent_node, variable_type: type, value) -> List[Node]:
+    """
+    Process the attributes an object keeps in slots.
+
+    A class that declares __slots__ has no attribute dictionary (or not only one): its attributes are children all the
+    same. The slots are read through their descriptors, not with getattr: looking at a value must not run a
+    __getattribute__ / __getattr__ of the application.
+
+    :param (ParentNode) parent_node: the node that represents the object, the parent for the returned nodes
+    :param (type) variable_type: the type of the object
+    :param (any) value: the object
+    :return (list): the collected child nodes
+    """
+    nodes = []
+    seen = set()
+    for klass in reversed(variable_type.__mro__):
+        slots = klass.__dict__.get('__slots__', ())
+        if isinstance(slots, str):
+            slots = (slots,)
+        for slot in slots:
+            name = slot
+            if name.startswith('__') and not name.endswith('__'):
+                name = '_%s%s' % (klass.__name__.lstrip('_'), name)     # the compiler mangles private slot names
+            member = klass.__dict__.get(name)
+            if name in ('__dict__', '__weakref__') or name in seen or not hasattr(member, '__get__'):
+                continue
+            seen.add(name)
+            try:
+                slot_value = member.__get__(value, variable_type)
+            except AttributeError:
+                continue        # a slot that was never assigned
+            shown = correct_names(klass.__name__, name)
+            nodes.append(Node(value=NodeValue(shown, slot_value, name), parent=parent_node))
+    return nodes
 
 
 def process_list_breadth_first(var_collector: Collector, parent_node: ParentNode, value) -> List[Node]:
